@@ -61,4 +61,59 @@ def run(chk, unit="asmjit/x86/x86func.cpp", fname=r"asmjit::x86::FuncInternal::i
                detail="`%s` is also executed for an argument that was not given a stack slot (it, or its address, went into a register): the "
                       "following stack arguments are placed 8 bytes too far" % " ".join(fn.text(i).split())[:50], key="stackslot|advance|%d" % n)
     chk.floor(R1 + ":advances", n, 4)
+
+    # ------------------------------------------------------------------------------------------------ vector stack arguments are aligned
+    R3 = "R-VEC-STACK-ARG-ALIGNED"
+    chk.rule(R3, "x86 init_func_detail(), default strategy: in the branch that handles float / vector types every assign_stack_offset() is "
+                 "reached only after `stack_offset = align_up(stack_offset, <computed from the argument's size>)` on the same path (psABI: an "
+                 "__m128 / __m256 stack argument is aligned to its size); the register-sized integer slots need no alignment")
+    par = fn.parent_map()
+
+    def in_vec_branch(e):
+        j = e
+        while j in par:
+            up = par[j]
+            ux = fn.e(up)
+            if ux is not None and ux["k"] == "s:IfStmt" and ux.get("cond") is not None and j != ux["cond"]:
+                rest = [c for c in ux.get("ch", []) if c != ux["cond"]]
+                if rest and j == rest[0] and any((fn.e(q) or {}).get("k") in ("call", "mcall") and (fn.e(q) or {}).get("cn") == "is_vec" for q in fn.walk(ux["cond"])):
+                    return True
+            j = up
+        return False
+    size_locals = {d for d, init in inits.items() if any((fn.e(j) or {}).get("k") in ("call", "mcall") and (fn.e(j) or {}).get("cn") == "size_of" for j in fn.walk(init))}
+
+    def elem2(eid, x):
+        if x["k"] == "binop" and x["op"] == "=":
+            l = fn.e(fn.strip(x["lhs"]))
+            r = fn.e(fn.strip(x["rhs"]))
+            if l is not None and l.get("name") == "stack_offset" and r is not None and r["k"] in ("call", "mcall") and r.get("cn") == "align_up" and len(r.get("args", [])) == 2:
+                if any((fn.e(j) or {}).get("k") == "ref" and (fn.e(j) or {}).get("did") in size_locals for j in fn.walk(r["args"][1])):
+                    return ((("aligned",),), ())
+        if x["k"] == "decl" and any("FuncValue" in (v.get("ty") or "") for v in x["vars"]):
+            return ((), (("aligned",),))
+        return None
+    def edge2(b, si, atom, holds):
+        # `if (size >= 16) align`: on the other edge the argument is smaller than a vector and needs no alignment beyond its slot
+        x = fn.e(atom)
+        if x is not None and x["k"] == "binop" and x["op"] in (">=", ">") and not holds:
+            l, r = fn.e(fn.strip(x["lhs"])), fn.e(fn.strip(x["rhs"]))
+            if l is not None and l.get("did") in size_locals and r is not None and isinstance(r.get("cv"), int) and r["cv"] + (1 if x["op"] == ">" else 0) <= 16:
+                return [("aligned",)]
+        return ()
+    m2 = Must(fn, elem2, edge2)
+    nv = 0
+    for i, x in sorted(fn.calls(lambda x: x["k"] == "mcall" and x.get("cn") == "assign_stack_offset")):
+        if not in_vec_branch(i):
+            continue
+        # the Win64 strategies pass vectors by reference (8-byte slots): only slots whose size comes from the type are judged
+        b, idx = fn.block_of().get(i, (None, None))
+        uses_size = any(isinstance(el, int) and (fn.e(el) or {}).get("k") == "binop" and (fn.e(el) or {}).get("op") == "+=" and
+                        (fn.e(fn.strip(fn.e(el)["rhs"])) or {}).get("did") in size_locals for el in (fn.blocks[b]["elems"] if b is not None else []))
+        if not uses_size:
+            continue
+        nv += 1
+        chk.ob(R3, "init_func_detail|assign_stack_offset@%d" % (fn.line_of(i) - fn.line), ("aligned",) in (m2.before(i) or frozenset()), loc=fn.loc(i),
+               detail="a float / vector argument is given the next free stack offset without aligning it to the argument's size: a __m128 after one "
+                      "8-byte stack argument lands at [8] instead of [16]", key="vecstackalign|%d" % nv)
+    chk.floor(R3 + ":slots", nv, 1)
     return n
